@@ -156,6 +156,31 @@ func tryEq(a, b fp.Try[int]) bool {
 func VH_c11_try() {
 	a, b, c := mkTry("a", 0), mkTry("b", 1), mkTry("c", 2)
 	monoidLaws(monoid.Try(monoid.Sum[int]()), a, b, c, tryEq, "monoid.Try")
+	// meaning: successes are combined, otherwise the first failing operand's own error (left to right)
+	calls := 0
+	m := monoid.Try(monoid.New(func() int { return 0 }, func(x, y int) int { calls++; return x + y }))
+	ab := m.Combine(a, b)
+	switch {
+	case a.IsFailure():
+		zz.Assert(ab.IsFailure() && ab.Failed().Get() == errs[0] && calls == 0, "monoid.Try: the left operand's failure comes first")
+	case b.IsFailure():
+		zz.Assert(ab.IsFailure() && ab.Failed().Get() == errs[1] && calls == 0, "monoid.Try: the right operand's failure when the left succeeded")
+	default:
+		zz.Assert(ab.IsSuccess() && ab.Get() == a.Get()+b.Get() && calls == 1, "monoid.Try combines successes")
+	}
+	// and a fold over several failures reports the first one
+	xs := fp.Seq[fp.Try[int]]{a, b, c}
+	want := m.Combine(m.Combine(m.Combine(m.Empty(), a), b), c)
+	zz.Assert(tryEq(seq.Reduce(xs, m), want) && tryEq(iterator.Reduce(iterator.FromSeq(xs), m), want) && tryEq(list.Reduce(list.FromSeq(xs), m), want), "Reduce over monoid.Try = left fold from Empty")
+	first := -1
+	for i, t := range xs {
+		if t.IsFailure() && first < 0 {
+			first = i
+		}
+	}
+	if first >= 0 {
+		zz.Assert(want.IsFailure() && want.Failed().Get() == errs[first], "fold over monoid.Try reports the first failure in order")
+	}
 }
 
 func mkPtr(name string) *int {
@@ -389,6 +414,41 @@ func VH_c11_reduce_sum() {
 	zz.Assert(seq.Reduce(fp.Seq[int](xs), monoid.Sum[int]()) == want, "seq.Reduce(Sum)")
 	zz.Assert(iterator.Reduce(iterator.FromSeq(xs), monoid.Sum[int]()) == want, "iterator.Reduce(Sum)")
 	zz.Assert(list.Reduce(list.FromSeq(xs), monoid.Sum[int]()) == want, "list.Reduce(Sum)")
+}
+
+// Reduce starts from Empty - which matters for the empty input when Empty is not the zero value of the carrier
+// (Product: 1, All: true, Option(Sum): Some(0)) - and FoldMap agrees with it
+func VH_c11_reduce_empty_is_identity() {
+	n := zz.Bound("reducelen2", 2, 3)
+	xs := zz.SliceInt("xs", n, 0, 0)
+	wantP := 1
+	for _, x := range xs {
+		wantP = wantP * x
+	}
+	p := monoid.Product[int]()
+	zz.Assert(seq.Reduce(fp.Seq[int](xs), p) == wantP, "seq.Reduce(Product) = fold from 1")
+	zz.Assert(iterator.Reduce(iterator.FromSeq(xs), p) == wantP, "iterator.Reduce(Product) = fold from 1")
+	zz.Assert(list.Reduce(list.FromSeq(xs), p) == wantP, "list.Reduce(Product) = fold from 1")
+	zz.Assert(seq.FoldMap(fp.Seq[int](xs), p, func(x int) int { return x }) == wantP, "seq.FoldMap(Product, id) = fold from 1")
+	bs := make([]bool, len(xs))
+	wantA := true
+	for i, x := range xs {
+		bs[i] = zz.UFBool("b", x)
+		wantA = wantA && bs[i]
+	}
+	zz.Assert(seq.Reduce(fp.Seq[bool](bs), monoid.All) == wantA, "seq.Reduce(All) = fold from true")
+	zz.Assert(iterator.Reduce(iterator.FromSeq(bs), monoid.All) == wantA, "iterator.Reduce(All) = fold from true")
+	zz.Assert(list.Reduce(list.FromSeq(bs), monoid.All) == wantA, "list.Reduce(All) = fold from true")
+	mo := monoid.Option(monoid.Sum[int]())
+	os := make([]fp.Option[int], len(xs))
+	wantO := mo.Empty()
+	for i, x := range xs {
+		os[i] = fp.Some(x)
+		wantO = mo.Combine(wantO, os[i])
+	}
+	zz.Assert(optEq(seq.Reduce(fp.Seq[fp.Option[int]](os), mo), wantO), "seq.Reduce(Option(Sum)) = fold from Empty")
+	zz.Assert(optEq(iterator.Reduce(iterator.FromSeq(os), mo), wantO), "iterator.Reduce(Option(Sum)) = fold from Empty")
+	zz.Assert(optEq(list.Reduce(list.FromSeq(os), mo), wantO), "list.Reduce(Option(Sum)) = fold from Empty")
 }
 
 func VH_c11_foldmap() {
